@@ -140,6 +140,9 @@ class MapVal:
         self.items = list(items or [])
 
 
+TOMB = ('deleted-map-entry',)
+
+
 class Chan:
     def __init__(self, cid):
         self.cid = cid
@@ -814,8 +817,11 @@ class Exec:
         m = self.ev(st, fr, ins['map'])
         k = self.ev(st, fr, ins['key'])
         v = self.ev(st, fr, ins['value'])
+        if not isinstance(m, Ptr):
+            raise PathEnd('panic', 'assignment to entry in nil map at %s' % ins.get('pos'))
         mv = st.heap[m.obj]
         st.heap[m.obj] = MapVal(mv.items + [(k, v)])
+        self.touch_obj(st, m.obj, 'w', ins)
         fr.idx += 1
 
     def op_MakeChan(self, st, fr, ins):
@@ -1024,8 +1030,68 @@ class Exec:
             raise Unsupported('select at %s' % ins.get('pos'))
         return h(self, st, fr, ins)
 
+    def key_eq(self, a, b):
+        if isinstance(a, Str) or isinstance(b, Str):
+            return z3.simplify(self.str_eq(a, b))
+        if z3.is_expr(a) or z3.is_expr(b):
+            return z3.simplify(a == b)
+        if isinstance(a, Iface) and isinstance(b, Iface):
+            return self.key_eq(a.v, b.v) if a.t == b.t else z3.BoolVal(False)
+        if isinstance(a, (int, bool)) and isinstance(b, (int, bool)):
+            return z3.BoolVal(a == b)
+        raise Unsupported('map key comparison of %r and %r' % (a, b))
+
     def op_Lookup(self, st, fr, ins):
-        raise Unsupported('map lookup')
+        """m[k] on a map kept as an update log (latest entry wins, TOMB = deleted): one successor state per entry the key can equal"""
+        m = self.ev(st, fr, ins['x'])
+        key = self.ev(st, fr, ins['index'])
+        vt = ins['type']
+        if ins.get('commaok'):
+            tt = self.types[vt]
+            vt = tt['elems'][0] if tt.get('kind') == 'tuple' else vt
+        if m is NIL:
+            items = []
+        elif isinstance(m, Ptr) and isinstance(st.heap.get(m.obj), MapVal):
+            items = st.heap[m.obj].items
+        else:
+            raise Unsupported('lookup on %r at %s' % (m, ins.get('pos')))
+        if isinstance(m, Ptr):
+            self.touch_obj(st, m.obj, 'r', ins)
+        outs = []          # (conds, value, found)
+        nots = []
+        for k, v in reversed(items):
+            c = self.key_eq(key, k)
+            if z3.is_false(c):
+                continue
+            outs.append((nots + [c], v))
+            if z3.is_true(c):
+                break
+            nots = nots + [z3.Not(c)]
+        else:
+            outs.append((nots, TOMB))
+        live = []
+        for i, (conds, v) in enumerate(outs):
+            conds = [c for c in conds if not z3.is_true(c)]
+            if conds and not self.feasible(st, z3.And(*conds) if len(conds) > 1 else conds[0]):
+                continue
+            live.append((conds, v))
+        if not live:
+            raise PathEnd('infeasible')
+        states = [st] + [st.clone() for _ in live[1:]]
+        for s, (conds, v) in zip(states, live):
+            s.pc.extend(conds)
+            found = v is not TOMB
+            val = v if found else self.zero(vt)
+            f = s.frames[-1]
+            f.regs[ins['name']] = (val, z3.BoolVal(found)) if ins.get('commaok') else val
+            f.idx += 1
+        return states if len(states) > 1 else None
+
+    def touch_obj(self, st, obj, kind, ins):
+        if st.obj_epoch.get(obj, 0) < st.epoch:
+            st.events.append(('shared_write' if kind == 'w' else 'shared_read', obj, (), ins.get('pos')))
+        elif st.track_all:
+            st.events.append(('priv_write' if kind == 'w' else 'priv_read', obj, (), ins.get('pos')))
 
     # ---- calls
     def resolve_call(self, st, fr, c):
@@ -1190,6 +1256,12 @@ class Exec:
             return self.append(st, args[0], args[1], ins)
         if name == 'copy':
             return self.copy(st, args[0], args[1], ins)
+        if name == 'delete':
+            m, k = args[0], args[1]
+            if isinstance(m, Ptr) and isinstance(st.heap.get(m.obj), MapVal):
+                st.heap[m.obj] = MapVal(st.heap[m.obj].items + [(k, TOMB)])
+                self.touch_obj(st, m.obj, 'w', ins)
+            return None
         if name == 'close':
             h = self.stubs.get('chan:close')
             if h is None:
